@@ -1,4 +1,5 @@
 import GeoVerif.Model.Conic
+import GeoVerif.Model.ConicKernels
 import GeoVerif.Spec.RealInst
 import Mathlib.Tactic.Ring
 import Mathlib.Tactic.LinearCombination
@@ -59,5 +60,72 @@ theorem log1p_real (x : ℝ) : log1p x = Real.log (1 + x) := by
     have : (1 : ℝ) + x - 1 = x := by ring
     rw [this]
     field_simp
+
+/-- over the reals `expm1 x = exp x − 1` -/
+theorem expm1_real (x : ℝ) : expm1 x = Real.exp x - 1 := by
+  unfold expm1
+  simp only [one_real, eqb_real, exp_real, log_real]
+  by_cases h : Real.exp x = 1
+  · have hx : x = 0 := by
+      have := Real.exp_eq_one_iff x
+      exact this.mp h
+    simp [hx]
+  · simp only [h, decide_false, Bool.false_eq_true, if_false]
+    have hpos := Real.exp_pos x
+    have h2 : ¬ (Real.exp x - 1 = -1) := by
+      intro h'
+      have : Real.exp x = 0 := by linarith
+      linarith
+    simp only [h2, decide_false, Bool.false_eq_true, if_false]
+    rw [Real.log_exp]
+    have hx : x ≠ 0 := by
+      intro h0
+      apply h
+      rw [h0, Real.exp_zero]
+    field_simp
+
+/-- `exp(arsinh t) = t + hyp t` -/
+theorem exp_arsinh_hyp (t : ℝ) : Real.exp (Real.arsinh t) = t + hyp t := by
+  rw [Real.exp_arsinh, hyp_real]
+
+/-- `exp(−arsinh t) = hyp t − t` -/
+theorem exp_neg_arsinh_hyp (t : ℝ) : Real.exp (-Real.arsinh t) = hyp t - t := by
+  rw [Real.exp_neg, exp_arsinh_hyp]
+  have h := hyp_sq t
+  have hp : t + hyp t ≠ 0 := by
+    have := abs_lt_hyp t
+    have := neg_abs_le t
+    linarith
+  field_simp
+  linear_combination -h
+
+/-- `epPsi tchi (hyp tchi) = exp(psi)`, `psi = arsinh tchi` -/
+theorem epPsi_real (t : ℝ) : epPsi t (hyp t) = Real.exp (Real.arsinh t) := by
+  unfold epPsi
+  simp only [leb_real, zero_real, one_real]
+  by_cases h : 0 ≤ t
+  · simp only [h, decide_true, if_true]
+    rw [exp_arsinh_hyp]; ring
+  · simp only [h, decide_false, Bool.false_eq_true, if_false]
+    rw [← exp_neg_arsinh_hyp, Real.exp_neg]
+    simp
+
+/-- `emPsi tchi (hyp tchi) = exp(−psi)` -/
+theorem emPsi_real (t : ℝ) : emPsi t (hyp t) = Real.exp (-Real.arsinh t) := by
+  unfold emPsi
+  simp only [ltb_real, zero_real, one_real]
+  by_cases h : 0 < t
+  · simp only [h, decide_true, if_true]
+    rw [Real.exp_neg, exp_arsinh_hyp]
+    simp [add_comm]
+  · simp only [h, decide_false, Bool.false_eq_true, if_false]
+    rw [exp_neg_arsinh_hyp]
+
+theorem fmax_real (a b : ℝ) : fmax a b = max a b := by
+  unfold fmax
+  simp only [ltb_real]
+  by_cases h : a < b
+  · simp [h, max_eq_right h.le]
+  · simp [h, max_eq_left (not_lt.mp h)]
 
 end GeoVerif.Proofs.Conic
